@@ -1,7 +1,203 @@
-import PprofVerif.Base.Tok
-/- Driver operations for C12. -/
+import PprofVerif.Model.Symbolize
+/-
+Driver operations for C12.  The plug-ins of the model (`ObjTool σ`, `Symz τ`, `isSourceURL`,
+`filter`) are instantiated with *script interpreters*: the harness draws a script from its PRNG,
+runs the real code against Go plug-ins that interpret the script, and sends the same script here.
+Both interpreters log the calls they receive.
+-/
 namespace Driver.C12
-open PV
+open PV PV.Sym
 
-def ops : List (String × (List String → String)) := []
+/-- script of one `Open` call. -/
+structure FileScript where
+  openErr : Bool
+  buildID : Str
+  failAt : Nat                       -- the failAt-th SourceLine call on this file errs (0 = never)
+  answers : List (Nat × List Frame)  -- address ↦ stack; missing = no answer
+  deriving Inhabited
+
+structure ObjState where
+  pending : List FileScript
+  cur : Option FileScript
+  calls : Nat
+  log : List String                  -- most recent first
+  deriving Inhabited
+
+def natS (n : Nat) : String := toString n
+
+def scriptedTool : ObjTool ObjState where
+  openFile s m :=
+    let e := "O:" ++ m.file.toTok ++ ":" ++ natS m.start ++ ":" ++ natS m.limit ++ ":" ++ natS m.offset
+    match s.pending with
+    | [] => ({ s with log := e :: s.log }, .err "no such file")
+    | f :: rest =>
+      if f.openErr then ({ s with pending := rest, log := e :: s.log }, .err "open failed")
+      else ({ pending := rest, cur := some f, calls := 0, log := e :: s.log }, .ok ())
+  buildID s :=
+    match s.cur with
+    | some f => ({ s with log := "B" :: s.log }, f.buildID)
+    | none => ({ s with log := "B" :: s.log }, [])
+  sourceLine s addr :=
+    let s1 := { s with calls := s.calls + 1, log := ("S:" ++ natS addr) :: s.log }
+    match s.cur with
+    | none => (s1, .err "closed")
+    | some f =>
+      if f.failAt ≠ 0 ∧ f.failAt = s.calls + 1 then (s1, .err "scripted failure")
+      else match f.answers.lookup addr with
+        | some fr => (s1, .ok fr)
+        | none => (s1, .ok [])
+  close s := { s with cur := none, log := "C" :: s.log }
+
+/-- script of one POST: the body answers the queried addresses (`c12Post` in harness/c12.go). -/
+structure PostScript where
+  isErr : Bool
+  names : List Str
+  dropEvery : Nat
+  before : Str
+  after : Str
+  sep : Str
+  deriving Inhabited
+
+def respondLines (ps : PostScript) : Nat → List Str → Str
+  | _, [] => []
+  | i, a :: rest =>
+    let line : Str :=
+      if ps.dropEvery ≠ 0 ∧ i % ps.dropEvery = 0 then []
+      else a ++ ps.sep ++ (match ps.names with
+                           | [] => a
+                           | _ => ps.names.getD (i % ps.names.length) []) ++ [10]
+    line ++ respondLines ps (i + 1) rest
+
+def respond (ps : PostScript) (query : Str) : Str :=
+  ps.before ++ respondLines ps 0 (splitOn 43 query) ++ ps.after
+
+structure PostState where
+  pending : List PostScript          -- per POST, in call order
+  log : List String
+  deriving Inhabited
+
+def missMarker : Str := [0, 77, 73, 83, 83]
+
+def tableFn (tab : List (Str × Str)) (dflt : Str → Str) (s : Str) : Str :=
+  match tab.lookup s with
+  | some d => d
+  | none => dflt s
+
+def scriptedSymz (urls : List (Str × Str)) : Symz PostState where
+  symbolzURL := tableFn urls (fun _ => [])
+  post s src q :=
+    let e := "P:" ++ src.toTok ++ ":" ++ q.toTok
+    match s.pending with
+    | [] => ({ s with log := e :: s.log }, .err "no answer")
+    | ps :: rest =>
+      if ps.isErr then ({ pending := rest, log := e :: s.log }, .err "post failed")
+      else ({ pending := rest, log := e :: s.log }, .ok (respond ps q))
+  parseLine := parseSymbolzLine
+
+namespace Rd
+open PV.Rd
+def frame : Rd Frame := do
+  pure { func := ← str, file := ← str, line := ← int, column := ← int, startLine := ← int }
+def fileScript : Rd FileScript := do
+  pure { openErr := ← bool, buildID := ← str, failAt := ← nat,
+         answers := ← list (do let a ← nat; let fr ← list frame; pure (a, fr)) }
+def source : Rd Source := do pure { source := ← str, start := ← nat }
+def sources : Rd Sources := list (do let k ← str; let v ← list source; pure (k, v))
+def postAns : Rd PostScript := do
+  pure { isErr := ← bool, names := ← list str, dropEvery := ← nat, before := ← str, after := ← str,
+         sep := ← str }
+def strPair : Rd (Str × Str) := do let a ← str; let b ← str; pure (a, b)
+def dmode : Rd DMode := do
+  let n ← nat
+  match n with
+  | 0 => pure .dflt
+  | 1 => pure .templates
+  | 2 => pure .full
+  | 3 => pure .none
+  | _ => failure
+end Rd
+
+def logWr (l : List String) : Wr := toString l.length :: l.reverse
+
+def reply (err wrapped : Bool) (p : Profile) (log1 log2 : List String) : String :=
+  Wr.render (["ok"] ++ Wr.bool err ++ Wr.bool wrapped ++ Wr.profile p ++ logWr log1 ++ logWr log2)
+
+def ops : List (String × (List String → String)) := [
+  -- Symbolizer.Symbolize(mode, sources, p) with scripted plug-ins
+  ("sym.run", fun ts =>
+    let rd : PV.Rd _ := do
+      let mode ← PV.Rd.str
+      let p ← PV.Rd.profile
+      let srcs ← Rd.sources
+      let files ← PV.Rd.list Rd.fileScript
+      let posts ← PV.Rd.list Rd.postAns
+      let urls ← PV.Rd.list Rd.strPair
+      let srcURLs ← PV.Rd.list PV.Rd.str
+      let filt ← PV.Rd.list Rd.strPair
+      pure (mode, p, srcs, files, posts, urls, srcURLs, filt)
+    match PV.Rd.run rd ts with
+    | none => "bad-op"
+    | some (mode, p, srcs, files, posts, urls, srcURLs, filt) =>
+      let env : Env ObjState PostState := {
+        tool := scriptedTool
+        isSourceURL := fun f => srcURLs.contains f
+        symz := scriptedSymz urls
+        filter := fun _ => tableFn filt (fun _ => missMarker) }
+      let r := symbolize env mode srcs p { pending := files, cur := none, calls := 0, log := [] }
+                 { pending := posts, log := [] }
+      reply r.err r.wrapped r.profile r.s.log r.t.log),
+  -- symbolz.Symbolize(p, force, sources, syms, ui) called directly
+  ("sym.remote", fun ts =>
+    let rd : PV.Rd _ := do
+      let force ← PV.Rd.bool
+      let p ← PV.Rd.profile
+      let srcs ← Rd.sources
+      let posts ← PV.Rd.list Rd.postAns
+      let urls ← PV.Rd.list Rd.strPair
+      pure (force, p, srcs, posts, urls)
+    match PV.Rd.run rd ts with
+    | none => "bad-op"
+    | some (force, p, srcs, posts, urls) =>
+      let r := remoteLoop (scriptedSymz urls) force srcs { pending := posts, log := [] }
+                 { functions := p.functions, top := 0, wrapped := false } p.locations p.mappings
+      reply r.2.2.2.2 r.2.1.wrapped
+        { p with functions := r.2.1.functions, locations := r.2.2.1, mappings := r.2.2.2.1 } [] r.1.log),
+  -- symbolizer.Demangle(p, force, mode) called directly
+  ("sym.demangle", fun ts =>
+    let rd : PV.Rd _ := do
+      let force ← PV.Rd.bool
+      let dm ← Rd.dmode
+      let p ← PV.Rd.profile
+      let filt ← PV.Rd.list Rd.strPair
+      pure (force, dm, p, filt)
+    match PV.Rd.run rd ts with
+    | none => "bad-op"
+    | some (force, dm, p, filt) =>
+      let fs := demangle (fun _ => tableFn filt (fun _ => missMarker)) force dm p.functions
+      reply false false { p with functions := fs } [] []),
+  ("sym.parsemode", fun ts =>
+    match PV.Rd.run PV.Rd.str ts with
+    | none => "bad-op"
+    | some m => match parseMode m with
+      | none => "none"
+      | some o => Wr.render (Wr.bool o.remote ++ Wr.bool o.locl ++ Wr.bool o.fast ++ Wr.bool o.force ++
+          [match o.dmode with | .dflt => "0" | .templates => "1" | .full => "2" | .none => "3"])),
+  ("sym.removematching", fun ts =>
+    match PV.Rd.run (do let s ← PV.Rd.str; let a ← PV.Rd.nat; let b ← PV.Rd.nat; pure (s, a, b)) ts with
+    | none => "bad-op"
+    | some (s, a, b) => (removeMatching s (UInt8.ofNat a) (UInt8.ofNat b)).toTok),
+  ("sym.parseline", fun ts =>
+    match PV.Rd.run PV.Rd.str ts with
+    | none => "bad-op"
+    | some s => match parseSymbolzLine s with
+      | none => "nomatch"
+      | some (.ok a, name) => "ok " ++ natS a ++ " " ++ name.toTok
+      | some (_, name) => "range " ++ name.toTok),
+  ("sym.adjust", fun ts =>
+    match PV.Rd.run (do let a ← PV.Rd.nat; let o ← PV.Rd.int; pure (a, o)) ts with
+    | none => "bad-op"
+    | some (a, o) => match adjust a o with
+      | none => "overflow"
+      | some v => natS v)
+]
 end Driver.C12
